@@ -107,6 +107,7 @@ type engine struct {
 	errSigs   map[string]struct{}
 	confirmed map[string]int
 	allocMin  map[string]uint64
+	allocSite map[string]string // (entry,type) -> last confirmed full key
 	evals     int64
 	deadline  time.Time
 	capped    int32
@@ -139,7 +140,7 @@ func main() {
 		}
 		run.Finish()
 	}
-	e := &engine{run: run, tmp: tmp, workers: runtime.NumCPU(), findings: map[string]*finding{}, errSigs: map[string]struct{}{}, confirmed: map[string]int{}, allocMin: map[string]uint64{}}
+	e := &engine{run: run, tmp: tmp, workers: runtime.NumCPU(), findings: map[string]*finding{}, errSigs: map[string]struct{}{}, confirmed: map[string]int{}, allocMin: map[string]uint64{}, allocSite: map[string]string{}}
 	if v := os.Getenv("C11_WORKERS"); v != "" {
 		e.workers, _ = strconv.Atoi(v)
 	}
@@ -680,6 +681,8 @@ func (e *engine) runBatch(jobs []job) {
 		}
 		if res.hung {
 			e.handleHang(sc, se, res.stderr)
+		} else if strings.Contains(res.stderr, "C11-RUNAWAY") {
+			e.handleRunaway(sc, se, res.stderr)
 		} else {
 			e.handleCrash(sc, se, res, jobs)
 		}
@@ -792,6 +795,10 @@ func (e *engine) addFinding(key, entry string, id, size int, msg string, frames 
 // parseDeath extracts (reason, top relic function, frames, message) from the
 // stderr of a dead worker.
 func parseDeath(stderr string) (reason, top string, frames []string, msg string) {
+	if strings.Contains(stderr, "C11-RUNAWAY") {
+		top, frames, msg = runawaySite(stderr)
+		return "runaway", top, frames, msg
+	}
 	lines := strings.Split(stderr, "\n")
 	start := -1
 	for i, l := range lines {
@@ -861,7 +868,7 @@ func (e *engine) single(id, entry int, confirm bool) (*workerResult, []string) {
 func (e *engine) handleCrash(id, entry int, res *workerResult, jobs []job) {
 	ename := e.entryName(id, entry)
 	reason, top, _, _ := parseDeath(res.stderr)
-	guess := crashKey(ename, reason, top)
+	guess := crashKey(ename, e.typeOf(id), reason, top)
 	e.mu.Lock()
 	nconf := e.confirmed[guess]
 	best := e.findings[guess]
@@ -880,7 +887,7 @@ func (e *engine) handleCrash(id, entry int, res *workerResult, jobs []job) {
 	e.run.Eval(1)
 	if !r2.finished || r2.done[id]&(1<<entry) == 0 {
 		reason2, top2, frames2, msg2 := parseDeath(r2.stderr)
-		key := crashKey(ename, reason2, top2)
+		key := crashKey(ename, e.typeOf(id), reason2, top2)
 		e.run.Outcome(entryClass(ename) + ":crash")
 		e.mu.Lock()
 		e.confirmed[key]++
@@ -908,7 +915,7 @@ func (e *engine) handleCrash(id, entry int, res *workerResult, jobs []job) {
 		if !r4.finished {
 			reason4, top4, frames4, msg4 := parseDeath(r4.stderr)
 			en4 := e.entryName(r3.progCase, r3.progEntry)
-			key := crashKey(en4, reason4, top4)
+			key := crashKey(en4, e.typeOf(r3.progCase), reason4, top4)
 			e.run.Outcome(entryClass(en4) + ":crash")
 			e.addFinding(key, en4, r3.progCase, e.inputSize(r3.progCase), msg4, frames4, "worker died; attributed by slow replay of the batch, reproduced alone")
 			return
@@ -920,8 +927,81 @@ func (e *engine) handleCrash(id, entry int, res *workerResult, jobs []job) {
 	e.addFinding("crash:"+entryClass(ename)+":unattributed:"+reason+"@"+top, ename, id, size, msg, frames, "worker died during this entry but the single input did not reproduce it")
 }
 
-func crashKey(entry, reason, top string) string {
+// runawaySite parses the all-goroutine dump a worker wrote before exiting 97.
+func runawaySite(stderr string) (top string, frames []string, msg string) {
+	i := strings.Index(stderr, "C11-RUNAWAY")
+	if i < 0 {
+		return "", nil, ""
+	}
+	rest := stderr[i:]
+	nl := strings.IndexByte(rest, '\n')
+	if nl < 0 {
+		return "", nil, rest
+	}
+	msg = rest[:nl]
+	for _, blk := range strings.Split(rest[nl+1:], "\n\n") {
+		if strings.Contains(blk, "main.(*wctx).guard") {
+			top, frames = parseStack(blk)
+			return
+		}
+	}
+	return
+}
+
+// handleRunaway: the worker stopped an entry whose heap kept growing past
+// 1.5 GiB. Believed after it does the same alone in a fresh worker.
+func (e *engine) handleRunaway(id, entry int, stderr string) {
+	ename := e.entryName(id, entry)
+	seed := e.seeds[e.cases[id].seed]
+	size := e.inputSize(id)
+	typ := seed.Module
+	if typ == "" {
+		typ = seed.Kind
+	}
+	top, frames, msg := runawaySite(stderr)
+	key := "alloc:" + entryClass(ename) + ":" + typ + ":" + top
+	e.run.Eval(1)
+	e.mu.Lock()
+	nconf := e.confirmed[key]
+	best := e.findings[key]
+	e.mu.Unlock()
+	if nconf >= 2 && best != nil && size >= best.bestSize {
+		e.run.Outcome(entryClass(ename) + ":alloc")
+		e.addFinding(key, ename, best.bestCase, best.bestSize, best.msg, best.frames, best.detail)
+		return
+	}
+	r2, _ := e.single(id, entry, true)
+	if !strings.Contains(r2.stderr, "C11-RUNAWAY") {
+		if !r2.finished && !r2.hung {
+			reason, top2, frames2, msg2 := parseDeath(r2.stderr)
+			e.run.Outcome(entryClass(ename) + ":crash")
+			e.addFinding(crashKey(ename, e.typeOf(id), reason, top2), ename, id, size, msg2, frames2, "worker died when the case was re-run alone")
+			return
+		}
+		e.run.Outcome(entryClass(ename) + ":runaway-not-reproduced")
+		return
+	}
+	top, frames, msg = runawaySite(r2.stderr)
+	key = "alloc:" + entryClass(ename) + ":" + typ + ":" + top
+	e.mu.Lock()
+	e.confirmed[key]++
+	e.mu.Unlock()
+	e.run.Outcome(entryClass(ename) + ":alloc")
+	e.addFinding(key, ename, id, size, fmt.Sprintf("heap kept growing: more than 1.5 GiB held for a %d-byte input when the worker stopped it (%s); bound %d MiB", size, strings.TrimPrefix(msg, "C11-RUNAWAY "), (allocBase+allocFactor*size)>>20), frames, "reproduced alone in a fresh worker")
+}
+
+func (e *engine) typeOf(id int) string {
+	seed := e.seeds[e.cases[id].seed]
+	if seed.Module != "" {
+		return seed.Module
+	}
+	return seed.Kind
+}
+
+func crashKey(entry, typ, reason, top string) string {
 	switch reason {
+	case "runaway":
+		return "alloc:" + entryClass(entry) + ":" + typ + ":" + top
 	case "goroutine-panic", "fatal":
 		if top != "" {
 			return "crash:" + entryClass(entry) + ":" + top
@@ -980,16 +1060,20 @@ func (e *engine) confirmAlloc(s allocSuspect) {
 	if typ0 == "" {
 		typ0 = seed.Kind
 	}
-	akey := "alloc:" + entryClass(ename) + ":" + typ0
+	// one confirmation per mutated field: other values written to the same
+	// offset of the same seed that allocate at least as much share the site
+	firstOff := -1
+	if m, err := mutate.ParseSpec(e.cases[s.id].spec); err == nil && len(m.Ops) > 0 {
+		firstOff = m.Ops[0].Off
+	}
+	akey := fmt.Sprintf("alloc:%s:%s|seed%d@%d", entryClass(ename), typ0, seed.Idx, firstOff)
 	e.mu.Lock()
 	nconf, minT := e.confirmed[akey], e.allocMin[akey]
 	e.mu.Unlock()
-	if nconf >= 3 && s.talloc >= minT {
-		// the class is confirmed on three single inputs; an input that allocates at
-		// least as much as the smallest confirmed one is counted on the batch evidence
+	if firstOff >= 0 && nconf >= 1 && s.talloc >= minT {
 		e.run.Outcome(entryClass(ename) + ":alloc")
 		e.mu.Lock()
-		if fd := e.findings[akey]; fd != nil {
+		if fd := e.findings[e.allocSite[akey]]; fd != nil {
 			fd.count++
 		}
 		e.mu.Unlock()
@@ -1001,7 +1085,7 @@ func (e *engine) confirmAlloc(s allocSuspect) {
 		if !r.hung {
 			reason, top, frames, msg := parseDeath(r.stderr)
 			e.run.Outcome(entryClass(ename) + ":crash")
-			e.addFinding(crashKey(ename, reason, top), ename, s.id, size, msg, frames, "worker died when the case was re-run alone for the allocation check")
+			e.addFinding(crashKey(ename, e.typeOf(s.id), reason, top), ename, s.id, size, msg, frames, "worker died when the case was re-run alone for the allocation check")
 		}
 		return
 	}
@@ -1015,15 +1099,24 @@ func (e *engine) confirmAlloc(s allocSuspect) {
 	if typ == "" {
 		typ = seed.Kind
 	}
+	var site panicInfo
+	if len(line) > 9 && line[9] != "" && line[3] != "panic" {
+		_ = json.Unmarshal([]byte(line[9]), &site)
+	}
+	fkey := "alloc:" + entryClass(ename) + ":" + typ
+	if site.Func != "" {
+		fkey += ":" + site.Func
+	}
 	e.run.Outcome(entryClass(ename) + ":alloc")
 	e.mu.Lock()
+	e.allocSite[akey] = fkey
 	e.confirmed[akey]++
 	if m, ok := e.allocMin[akey]; !ok || talloc < m {
 		e.allocMin[akey] = talloc
 	}
 	e.mu.Unlock()
-	e.addFinding("alloc:"+entryClass(ename)+":"+typ, ename, s.id, size,
-		fmt.Sprintf("heap grew by %d MiB (allocated %d MiB in total) for a %d-byte input; bound %d MiB", hs>>20, talloc>>20, size, bound>>20), nil, "")
+	e.addFinding(fkey, ename, s.id, size,
+		fmt.Sprintf("heap grew by %d MiB (allocated %d MiB in total) for a %d-byte input; bound %d MiB", hs>>20, talloc>>20, size, bound>>20), site.Frames, "measured alone in a fresh worker")
 }
 
 // ------------------------------------------------------------- report
